@@ -389,6 +389,57 @@ theorem translated_stringConfig (σ : Env) :
     r.stuck = false ∧ r.ret = some [σ "c.StringConfigRequired#0"] ∧
     r.env "c[name]" = (if σ "lookup c#1" = 0 then σ "defaultValue" else σ "c[name]") := by
   by_cases h1 : σ "lookup c#1" = 0 <;> minigo_simp [Trans.stringConfig, h1]
+
+/-- checkConfig of the Kafka source, translated (`fmt.Errorf` never returns nil: `hE`): accepted exactly when brokers,
+consumergroup, topic and buffersize are non-empty, buffersize is an integer ≥ 1 for `strconv.Atoi`, maxpartitionlag — after an
+empty one has been replaced by `Itoa(MaxInt64)` — is an integer ≥ 0, and parallelrecoveryenabled is empty or a boolean for
+`strconv.ParseBool`; an empty maxpartitionlag is the only setting it writes -/
+theorem translated_checkConfig (σ : Env) (hE : σ "fmt.Errorf#0" ≠ 0) :
+    let r := run Trans.kcCheckConfig σ
+    let e := σ "\"\""
+    r.stuck = false ∧
+    (r.ret = some [0] ↔
+      (σ "config[\"brokers\"]" ≠ e ∧ σ "config[\"consumergroup\"]" ≠ e ∧ σ "config[\"topic\"]" ≠ e ∧ σ "config[\"buffersize\"]" ≠ e ∧
+       σ "strconv.Atoi(config[\"buffersize\"])#1" = 0 ∧ σ "strconv.Atoi(config[\"buffersize\"])#0" ≥ 1 ∧
+       σ "strconv.Atoi(config[\"maxpartitionlag\"])#1" = 0 ∧ σ "strconv.Atoi(config[\"maxpartitionlag\"])#0" ≥ 0 ∧
+       (σ "config[\"parallelrecoveryenabled\"]" = e ∨ σ "strconv.ParseBool#1" = 0))) ∧
+    (r.ret = some [0] →
+      r.env "config[\"maxpartitionlag\"]" =
+        if σ "config[\"maxpartitionlag\"]" = e then σ "strconv.Itoa#0" else σ "config[\"maxpartitionlag\"]") ∧
+    (σ "config[\"maxpartitionlag\"]" = e → r.ret = some [0] → ("strconv.Itoa", [9223372036854775807]) ∈ r.calls) := by
+  by_cases h1 : σ "config[\"brokers\"]" = σ "\"\""
+  · minigo_simp [Trans.kcCheckConfig, hE, h1] <;> (try omega)
+  by_cases h2 : σ "config[\"consumergroup\"]" = σ "\"\""
+  · minigo_simp [Trans.kcCheckConfig, hE, h1, h2] <;> (try omega)
+  by_cases h3 : σ "config[\"topic\"]" = σ "\"\""
+  · minigo_simp [Trans.kcCheckConfig, hE, h1, h2, h3] <;> (try omega)
+  by_cases h4 : σ "config[\"buffersize\"]" = σ "\"\""
+  · minigo_simp [Trans.kcCheckConfig, hE, h1, h2, h3, h4] <;> (try omega)
+  by_cases h5 : ¬ σ "strconv.Atoi(config[\"buffersize\"])#1" = 0
+  · minigo_simp [Trans.kcCheckConfig, hE, h1, h2, h3, h4, h5] <;> (try omega)
+  by_cases h6 : σ "strconv.Atoi(config[\"buffersize\"])#0" < 1
+  · minigo_simp [Trans.kcCheckConfig, hE, h1, h2, h3, h4, h5, h6] <;> (try omega)
+  by_cases h7 : σ "config[\"maxpartitionlag\"]" = σ "\"\"" <;>
+  by_cases h8 : σ "strconv.Atoi(config[\"maxpartitionlag\"])#1" = 0 <;>
+  by_cases h9 : σ "strconv.Atoi(config[\"maxpartitionlag\"])#0" < 0 <;>
+  by_cases h10 : σ "config[\"parallelrecoveryenabled\"]" = σ "\"\"" <;> by_cases h11 : σ "strconv.ParseBool#1" = 0 <;>
+  minigo_simp [Trans.kcCheckConfig, hE, h1, h2, h3, h4, h5, h6, h7, h8, h9, h10, h11] <;> (try omega)
+
+/-- one key of ApplyLibrdkafkaConf, translated: a key carrying the prefix `librdkafka.` is set on the client configuration under
+the name without the prefix, with its value as it is; any other key is not touched; a failing SetKey ends the overlay with
+that error -/
+theorem translated_applyConfBody (σ : Env) :
+    obs Trans.applyConfBody σ =
+      ⟨[("strings.HasPrefix", [σ "k", σ "\"librdkafka.\""])] ++
+        (if σ "strings.HasPrefix#0" ≠ 0 then
+          [("configMap.SetKey", [σ "strings.TrimPrefix(k, \"librdkafka.\")", σ "v"])] ++
+          (if σ "configMap.SetKey#0" ≠ 0 then
+            [("fmt.Printf", [σ "\"failed to populate kafka config map with librdkafka values for key %s\\n\"", σ "k"])] else [])
+         else []),
+       (if σ "strings.HasPrefix#0" ≠ 0 ∧ σ "configMap.SetKey#0" ≠ 0 then some [σ "configMap.SetKey#0"] else none), false⟩ := by
+  by_cases h1 : σ "strings.HasPrefix#0" = 0 <;> by_cases h2 : σ "configMap.SetKey#0" = 0 <;>
+  minigo_simp [Trans.applyConfBody, h1, h2]
+
 end Translated
 
 theorem closure_unchanged : GeneratedClo.C20 = ExpectedClo.C20 := by rfl
